@@ -52,7 +52,7 @@ UnitRatio(v) == v = -1 \/ Near(v, Q, 8)
 ArcsineForm(e) ==
     e.pr = -1 \/ LET o2 == MulQ20(e.om, e.om) IN
                   /\ e.pr >= Q + (e.om \div 6) + ((3 * o2) \div 40) - 4
-                  /\ e.pr <= Q + (e.om \div 6) + MulQ20(o2, 423750) + 4
+                  /\ e.pr <= Q + (e.om \div 6) + MulQ20(o2, 423761) + 4     \* (pi/2 - 7/6) * 2^20 = 423760.6
 ErrorRatios(e) ==
     /\ Check("C10:Gxy_error_is_one_over_sqrt_coh_n", UnitRatio(e.kxy))
     /\ Check("C10:Hxy_mag_error_is_sqrt_one_minus_coh_over_2_coh_n", UnitRatio(e.khm))
